@@ -66,9 +66,11 @@ def expected_verdict(ix, sid):
     return {'timeout'}, dict(tie=False, crit=[])
 
 
-def oracle(case, trace, ix, res):
+def oracle(case, trace, ix, res, prefix='C04', focus=None):
     for sp in ix.scheds():
         sid = sp['id']
+        if focus is not None and not focus(sid, None):
+            continue
         v = ix.verdict(sid)
         if v['kind'] in ('none', 'cancelled'):
             continue
@@ -92,13 +94,13 @@ def oracle(case, trace, ix, res):
             kind = v['kind']            # timeout | critical | unknown, from the diagnosis
             res.nontrivial = True
         elif ev['how'] == 'return':
-            res.fail('C04:verdict-not-boolean', "%s returned %r" % (ctx, ev['obj']),
+            res.fail(prefix + ':verdict-not-boolean', "%s returned %r" % (ctx, ev['obj']),
                      context(ix))
             continue
         else:
             res.nontrivial = True
             if not raises_allowed:
-                res.fail('C04:non-critical-scheduler-raised',
+                res.fail(prefix + ':non-critical-scheduler-raised',
                          "%s raised %s instead of returning False" % (ctx, ev.get('etype')),
                          context(ix))
                 continue
@@ -108,7 +110,7 @@ def oracle(case, trace, ix, res):
             elif ev.get('etype') == 'TimeoutError':
                 kind = 'timeout'
             else:
-                res.fail('C04:stray-exception',
+                res.fail(prefix + ':stray-exception',
                          "%s raised %s %s, which is neither TimeoutError nor the exception "
                          "object raised by one of its critical jobs %s (expected verdict: %s)"
                          % (ctx, ev.get('etype'), ev['obj'], sorted(crit_objs),
@@ -120,13 +122,13 @@ def oracle(case, trace, ix, res):
         acceptable = expected if 'not-success' not in expected \
             else {'timeout', 'critical', 'unknown'}
         if kind == 'unknown':
-            res.fail('C04:diagnosis-names-no-single-cause',
+            res.fail(prefix + ':diagnosis-names-no-single-cause',
                      "%s failed but failed_time_out()=%s failed_critical()=%s why()=%r "
                      "(expected cause: %s)" % (ctx, ev.get('fto'), ev.get('fc'), ev.get('why'),
                                                '/'.join(sorted(expected))), context(ix))
             continue
         if kind not in acceptable:
-            res.fail('C04:wrong-verdict',
+            res.fail(prefix + ':wrong-verdict',
                      "%s reported %s but what happened calls for %s" %
                      (ctx, kind, '/'.join(sorted(expected))), context(ix))
             continue
@@ -134,32 +136,32 @@ def oracle(case, trace, ix, res):
         fto, fc, why = ev.get('fto'), ev.get('fc'), ev.get('why')
         if kind == 'success':
             if fto or fc or why != 'FINE':
-                res.fail('C04:diagnosis-after-success',
+                res.fail(prefix + ':diagnosis-after-success',
                          "%s succeeded but failed_time_out()=%s failed_critical()=%s why()=%r"
                          % (ctx, fto, fc, why), context(ix))
             continue
         if raises_allowed and ev['how'] == 'return':
-            res.fail('C04:critical-scheduler-returned-false',
+            res.fail(prefix + ':critical-scheduler-returned-false',
                      "%s failed (%s) but returned False instead of raising" % (ctx, kind),
                      context(ix))
         if kind == 'timeout':
             if not fto or fc or not str(why).startswith('TIMED OUT'):
-                res.fail('C04:diagnosis-timeout',
+                res.fail(prefix + ':diagnosis-timeout',
                          "%s timed out but failed_time_out()=%s failed_critical()=%s why()=%r"
                          % (ctx, fto, fc, why), context(ix))
         if kind == 'critical':
             if not fc or fto or 'CRITICAL' not in str(why):
-                res.fail('C04:diagnosis-critical',
+                res.fail(prefix + ':diagnosis-critical',
                          "%s failed on a critical job but failed_time_out()=%s "
                          "failed_critical()=%s why()=%r" % (ctx, fto, fc, why), context(ix))
     # ---- top level: run() hands over what the top-level co_run produced
     top = ix.exit(case['id'])
     if top is not None and top['how'] in ('return', 'raise') and ix.terminated():
         if trace.outcome['how'] != top['how'] or trace.outcome['obj'] != top['obj']:
-            res.fail('C04:run-differs-from-co_run', "run() gave %s but co_run %s"
+            res.fail(prefix + ':run-differs-from-co_run', "run() gave %s but co_run %s"
                      % (trace.outcome, top), context(ix))
     elif trace.outcome['how'] == 'raise':
-        res.fail('C04:stray-exception-from-run', "run() raised %s: %s" %
+        res.fail(prefix + ':stray-exception-from-run', "run() raised %s: %s" %
                  (trace.outcome.get('etype'), trace.outcome.get('msg')), context(ix))
 
 
